@@ -71,7 +71,7 @@ CLAIMED = {
    technique="deterministic simulation with a byzantine prover (deviating permutation / hints), real prove + verify"),
  "C12": dict(level="fault_enumeration", ref="DESIGN §5 C12",
    text="Byzantine hint executors: binary decomposition emitting the bits of x + p, extension decomposition moving mass between coefficients, inside gadget circuits and challenger histories; forged traces are proven and verified; an accepted proof with a non-canonical decomposition is a violation.",
-   note="Only decompositions reachable through Op::Hint are faulted. Known findings listed in known_findings.json.",
+   note="Only decompositions reachable through Op::Hint are faulted: at witness-generation depth (deviating hint executors) and at matrix depth (hook H2: a hinted bit / coefficient reassigned in every committed cell of its slot, nothing recomputed). Known findings listed in known_findings.json.",
    technique="deterministic simulation with byzantine hint executors, real prove + verify"),
  "C14": dict(level="fault_enumeration", ref="DESIGN §5 C14",
    text="For every proof shape of C01's swarm: packed lengths equal the circuit's, every value leaf of the serialized proof must move at least one packed position (leaf to position map), and corrupting any single position of the packed public or private vector must make the circuit unsatisfiable.",
